@@ -50,10 +50,12 @@ func init() {
 			"a failing case is shrunk (rest of the path on each element the first fragment selects) before it is classified",
 		},
 		Bound: func(tier string) string {
+			wide, thin := len(gens.Paths(true).Frags), len(gens.Paths(false).Frags)
+			d3, d4 := len(gens.PathData(3)), len(gens.PathData(4))
 			if tier == "thorough" {
-				return "wide alphabet (421 fragments) k<=2 on all trees <=4 nodes + larger documents; thinned alphabet (124 fragments) k=3 on all trees <=3 nodes + larger documents; " + opBound
+				return fmt.Sprintf("wide alphabet (%d fragments) k<=2 on the %d documents of PathData(4) (all trees <=4 nodes + hand-made larger ones); thinned alphabet (%d fragments) k=3 on the %d documents of PathData(3) that are nested at least 2 deep (on flatter ones a third fragment has nothing to apply to; they are covered with k<=2); ", wide, d4, thin, len(gens.DeepDocs(gens.PathData(3), 2))) + opBound
 			}
-			return "wide alphabet (421 fragments) k<=2 on all trees <=3 nodes + larger documents; " + opBound
+			return fmt.Sprintf("wide alphabet (%d fragments) k<=2 on the %d documents of PathData(3) (all trees <=3 nodes + hand-made larger ones); ", wide, d3) + opBound
 		},
 	})
 }
@@ -382,7 +384,9 @@ func expected(before any, hs []hit, o opT) []any {
 // creation reports whether Set may have to create something: on the way a
 // child (or union key) meets an object without that key, or an index (or
 // union index) lies outside an array.
-func creation(spec gens.JPExpr, data any) bool {
+func creation(spec gens.JPExpr, data any) bool { return creationV(spec, data, pathref.Variants[0]) }
+
+func creationV(spec gens.JPExpr, data any, v pathref.Variant) bool {
 	for i := 1; i < len(spec); i++ {
 		f := spec[i]
 		if f.K != "child" && f.K != "nth" && f.K != "union" {
@@ -392,7 +396,7 @@ func creation(spec gens.JPExpr, data any) bool {
 		if i == 1 {
 			nodes = []hit{{Value: data}}
 		} else {
-			nodes = pathref.SelectSpec(spec[:i], data, pathref.Variants[0]).Hits
+			nodes = pathref.SelectSpec(spec[:i], data, v).Hits
 		}
 		for _, n := range nodes {
 			switch t := n.Value.(type) {
@@ -1333,6 +1337,17 @@ func report(c *core.Ctx, spec gens.JPExpr, t *tree, repr string, o opT, f *findi
 		}
 	}
 	x := s.Build()
+	if inclusiveReading(c, s, x, st, repr, o) {
+		// known finding: the mutating operations read a slice inclusively. Only
+		// cases whose whole outcome is what that reading prescribes are keyed here.
+		name := o.label()
+		if o.Must {
+			name = "Must" + name
+		}
+		cs := caseT{Path: s, Text: x.String(), Data: st.encoded(), Repr: repr, Op: o, Kind: "slice-inclusive-reading"}
+		c.Fail(core.Sig(name, "slice-inclusive-reading"), cs, len(s)*1000+len(st.show()), g.exp, g.obs+"   ["+o.String()+" "+x.String()+" on "+repr+" form of "+st.show()+"]")
+		return
+	}
 	cs := caseT{Path: s, Text: x.String(), Data: st.encoded(), Repr: repr, Op: o, Kind: g.kind}
 	size := len(s)*1000 + len(st.show())
 	if repr == "gen" {
@@ -1342,6 +1357,31 @@ func report(c *core.Ctx, spec gens.JPExpr, t *tree, repr string, o opT, f *findi
 		size += 2
 	}
 	c.Fail(signature(s, st, repr, o, g, filterBlamed(c, s, st, repr, o, g)), cs, size, g.exp, g.obs+"   ["+o.String()+" "+x.String()+" on "+repr+" form of "+st.show()+"]")
+}
+
+// inclusiveReading reports whether the operation, which fails against Get's
+// selection, does exactly what the property asks for the locations that the
+// inclusive reading of slices selects (pathref.Variant.Inclusive).
+func inclusiveReading(c *core.Ctx, spec gens.JPExpr, x jp.Expr, t *tree, repr string, o opT) bool {
+	if !spec.HasFrag("slice") {
+		return false
+	}
+	r := pathref.SelectSpec(spec, t.simple, pathref.Variant{Inclusive: true})
+	if r.Open {
+		return false
+	}
+	sel := selection{cands: [][]hit{r.Hits}, ordered: !t.multi && !spec.HasFrag("desc"), empty: len(r.Hits) == 0}
+	rounds := 1
+	if t.multi {
+		rounds = 3
+	}
+	for i := 0; i < rounds; i++ {
+		if runOp(c, spec, x, t, sel, o.base() == "Set" && creationV(spec, t.simple, pathref.Variant{Inclusive: true}), repr, o) != nil {
+			return false
+		}
+	}
+	c.Add("failures_explained_by_the_inclusive_slice_reading", 1)
+	return true
 }
 
 // ------------------------------------------------------------------ driver
@@ -1426,7 +1466,7 @@ func run(c *core.Ctx) {
 	if c.Quick() {
 		passes = []pass{{gens.Paths(true), 2, 1, gens.PathData(3)}}
 	} else {
-		passes = []pass{{gens.Paths(true), 2, 1, gens.PathData(4)}, {gens.Paths(false), 3, 3, gens.PathData(3)}}
+		passes = []pass{{gens.Paths(true), 2, 1, gens.PathData(4)}, {gens.Paths(false), 3, 3, gens.DeepDocs(gens.PathData(3), 2)}}
 	}
 	n := 0
 	for pi, p := range passes {
